@@ -30,6 +30,18 @@ CLAIMED = {
             "Every tape the real Parse/ParseND produces for the bounded document space of C02 and the accepted inputs of C08's line-sequence space under all four configs, and every tape obtained by Deserialize(Serialize(.)) in all four modes from every state of the delete/replace history graph (depth 1, thorough 2), is checked against the documented format: root pairs, start/end offsets, nesting, key/value alternation, in-range strings, payload words, strict NOP runs after Deserialize.",
             "Trusted: ref/reftape.go as a transcription of README.md's tape description.",
             "DESIGN.md 4.17"),
+    "C03": ("exhaustive enumeration of bounded number-literal lattices on the real parser vs. exact math/big classifier",
+            "All grammar strings <= 8 (thorough 9) characters over {0 1 2 5 9 - + . e E} (walked through the number DFA), +-300 neighbourhoods of every int64/uint64/2^53/10^k/max-float boundary in 7 spellings, digit ladders 1..25, the exact decimal midpoint between adjacent doubles for every binade x 8 mantissas and +-1 in its last digit (round-half-even cases, ~1100-digit literals), and a decimal lattice mantissa 1..3000 (thorough 30000) x exponent -330..310 x spellings; each as array element and as object value; type, bits and overflow flag compared with an exact classifier.",
+            "Trusted: ref.ClassifyNumber (math/big), cross-checked with strconv. Finite lattices, not all decimal literals.",
+            "DESIGN.md 4.3"),
+    "C04": ("exhaustive enumeration of the quantifier's string spaces on the real parser vs. reference unescaper",
+            "All 65536 \\u units x 16 hex-case masks, all 1048576 surrogate pairs (values and keys), every byte after a backslash x 71 positions x 4 paddings, every byte in every hex position, every Unicode scalar raw, lengths 0..4096 x 64 start offsets x escape first/last, 10 escape kinds at every position of every length <= 66 (thorough 130) x 64 offsets, backslash runs 1..9 across block edges on both kernels; copy and no-copy modes; byte-exact comparison with the reference unescaper.",
+            "Trusted: reference unescaper. Lone surrogates / invalid UTF-8 are out of claim (must only not crash).",
+            "DESIGN.md 4.4"),
+    "C18": ("exhaustive enumeration of bounded float64 lattices on the real formatter vs. encoding/json + bit-exact parse-back",
+            "Float32 patterns widened (stride 61 quick, all 2^32 thorough), doubles with 12 free leading/trailing mantissa bits x all exponents x signs (50 M), nearest doubles of a 4-digit (thorough 5-digit) decimal lattice x all exponents, powers of ten/two +-4 ulp, sparse subnormals, scaled integers, +-16 ulp around the 1e-6/1e21 format switches; output must equal encoding/json byte for byte, parse back to the same bits, and (1/64) have no shorter round-tripping decimal. Bounded-lattice claim: the 2^64 space is not enumerated.",
+            "Trusted: Go's encoding/json + strconv. Not all 2^64 patterns.",
+            "DESIGN.md 4.18"),
 }
 
 PENDING_REASON = "check not built yet in this round (planned, see DESIGN.md section 8); not claimed until its machinery exists"
